@@ -47,6 +47,22 @@ func c11World(tp *Tape, env *Env) (*Plan, *Violation) {
 		env.St.probe("world_with_failing_jumps")
 	}
 	g.ensureYieldingCycles(prog)
+	if tp.Chance(6, "paddedtitle") {
+		// a title header whose value ends in a blank or a tab: the value is the rest of the line, so that is the node's
+		// name - the name under which it is entered, counted and asked about
+		n := prog.Nodes[tp.Int(0, len(prog.Nodes)-1, "paddednode")]
+		if n.Title != "" {
+			renameNode(prog, n.Title, n.Title+[]string{" ", "\t", "  "}[tp.Int(0, 2, "padding")])
+			env.St.probe("node_title_ending_in_white_space")
+		}
+	}
+	if len(prog.Nodes) > 0 && prog.Nodes[0].Title != "" && tp.Chance(8, "duptitle") {
+		// a later file opens with a node of the same title as the start node (loaders accept that): a name stands for
+		// the first node that carries it, at the start, in a jump and in a restore alike
+		dup := &Node{Title: prog.Nodes[0].Title, Body: []*Stmt{{K: sLine, Line: &LineS{Parts: []Part{{Text: "DUP the second node of that title"}}}}}}
+		prog.Nodes = append(prog.Nodes, dup)
+		env.St.probe("two_nodes_share_the_start_nodes_title")
+	}
 	if tp.Chance(30, "passthrough") {
 		// pass-through nodes: the node's FIRST statement is its jump onward (no entry probe in front of it: the
 		// passage is logged by the destination expression itself), so chains A -> P -> B resolve inside one call
@@ -126,6 +142,9 @@ func c11Exec(plan *Plan, st *Stats) *Violation {
 	never := map[string]bool{}
 	isNode := map[string]bool{}
 	for _, n := range prog.Nodes {
+		if isNode[n.Title] {
+			continue // a title stands for the first node that carries it
+		}
 		isNode[n.Title] = true
 		never[n.Title] = n.Tracking == "never"
 	}
